@@ -150,7 +150,7 @@ fn emit(ctx: &mut Ctx, s: u64, lens: &[u64], seed: u64) {
 }
 
 pub fn run_c07(ctx: &mut Ctx) {
-    ctx.case_timeout = std::time::Duration::from_secs(10);
+    ctx.case_timeout = std::time::Duration::from_secs(90);
     if ctx.first_shard() {
         for s in 0..3 {
             for lens in [vec![1u64], vec![3], vec![2, 0, 3], vec![0, 0], vec![0], vec![1, 5], vec![5, 1], vec![2, 2, 2]] {
